@@ -5,6 +5,7 @@ Functions that are not clearly related to another module
 import asyncio
 import inspect
 import re
+from copy import deepcopy
 from re import Match
 from typing import Awaitable, Callable, List, Optional, TypeVar, Union
 
@@ -64,7 +65,8 @@ def tree_copy(lru_cached_parsing_func: Callable[[str], Tree]):
         cache_size_after_parsing = lru_cached_parsing_func.cache_info().currsize
         if cache_size_after_parsing == cache_size_before_parsing:
             parsing_logger.log(_CACHE_LOG_LEVEL, "The parsed tree for '%s' has been loaded from the cache", args[0])
-        return tree_result.copy()
+        # lark's Tree.copy() is shallow: the children list would be shared with the cached tree
+        return deepcopy(tree_result)
 
     return decorated
 
